@@ -36,7 +36,32 @@ pub(crate) fn named(attr: &StructAttr, ts_name: Expr, fields: &FieldsNamed) -> R
     }
 
     let fields = quote!(<[String]>::join(&[#(#formatted_fields),*], " "));
-    let flattened = quote!(<[String]>::join(&[#(#flattened_fields),*], " & "));
+
+    // Joins the parts of an intersection, combining `{ ... } & { ... }` into just one `{ ... }`.
+    // Not necessary, but it results in simpler type definitions.
+    // Only whole parts are combined - their contents (doc comments, names) are never touched.
+    let intersect = |parts: &[TokenStream]| {
+        quote! {{
+            let mut merged: Vec<String> = Vec::new();
+            for part in [#(#parts),*] {
+                match merged.last_mut() {
+                    Some(prev) if prev.ends_with(" }") && part.starts_with("{ ") => {
+                        prev.truncate(prev.len() - 2);
+                        prev.push(' ');
+                        prev.push_str(&part[2..]);
+                    }
+                    _ => merged.push(part),
+                }
+            }
+            merged.join(" & ")
+        }}
+    };
+    let flattened = intersect(&flattened_fields);
+    let fields_and_flattened = {
+        let mut parts = vec![quote!(format!("{{ {} }}", #fields))];
+        parts.extend(flattened_fields.iter().cloned());
+        intersect(&parts)
+    };
 
     let inline = match (formatted_fields.len(), flattened_fields.len()) {
         (0, 0) => quote!("{  }".to_owned()),
@@ -63,22 +88,20 @@ pub(crate) fn named(attr: &StructAttr, ts_name: Expr, fields: &FieldsNamed) -> R
             }
         }},
         (0, _) => quote!(#flattened),
-        (_, _) => quote!(format!("{{ {} }} & {}", #fields, #flattened)),
+        (_, _) => fields_and_flattened.clone(),
     };
 
     let inline_flattened = match (formatted_fields.len(), flattened_fields.len()) {
         (0, 0) => quote!("{  }".to_owned()),
         (_, 0) => quote!(format!("{{ {} }}", #fields)),
         (0, _) => quote!(#flattened),
-        (_, _) => quote!(format!("{{ {} }} & {}", #fields, #flattened)),
+        (_, _) => fields_and_flattened.clone(),
     };
 
     Ok(DerivedTS {
         crate_rename,
-        // the `replace` combines `{ ... } & { ... }` into just one `{ ... }`. Not necessary, but it
-        // results in simpler type definitions.
-        inline: quote!(#inline.replace(" } & { ", " ")),
-        inline_flattened: Some(quote!(#inline_flattened.replace(" } & { ", " "))),
+        inline,
+        inline_flattened: Some(inline_flattened),
         docs: attr.docs.clone(),
         dependencies,
         export: attr.export,
